@@ -11,7 +11,7 @@ import (
 )
 
 func init() {
-	for _, f := range []string{"c02", "c03", "c04", "c05", "c06", "c07", "c16", "c19"} {
+	for _, f := range []string{"c02", "c03", "c04", "c05", "c06", "c07", "c08", "c16", "c19"} {
 		f := f
 		streams["cert-"+f] = func() { streamCert(f) }
 	}
@@ -39,7 +39,9 @@ var allSigs = append(append([]string{}, rsaSigs...), ecSigs...)
 var kuFlags = []string{"digitalSignature", "nonRepudiation", "keyEncipherment", "dataEncipherment", "keyAgreement", "keyCertSign", "crlSign"}
 var ekuNames = []string{"serverAuth", "clientAuth", "codeSigning", "emailProtection", "timeStamping", "OCSPSigning"}
 var attrKeys = []string{"CN", "O", "OU", "C", "L", "ST", "STREET", "POSTALCODE", "SERIALNUMBER", "1.2.3.4", "2.5.4.99", "0.9.2342.19200300.100.1.25"}
-var attrVals = []string{"x", "Smith\\, John", "a\\,b", "Müller\\,  Söhne GmbH", "Acme Ltd.", "Grüße", "日本語", "O'Neil (x)", "a_b@c", "A*B", "A&B", "with  two spaces", "semi;colon", "plus+slash/", "emoji 😀", "q?:.-", "1234"}
+var attrVals = []string{"x", "Smith\\, John", "a\\,b", "Müller\\,  Söhne GmbH", "Acme Ltd.", "Grüße", "日本語", "O'Neil (x)", "a_b@c", "A*B", "A&B", "with  two spaces", "semi;colon", "plus+slash/", "emoji 😀", "q?:.-", "1234",
+	// RFC 4514 hex form: a PrintableString TLV is taken as that string, anything else is carried as octets (not spliced in)
+	"#130568656c6c6f", "#0c0568656c6c6f", "#4D7943657274", "#0c810568656c6c6f", "#0c0568656c6c6f00", "#3003020101", "#04023031", "#ff"}
 
 func (g *gen) crit() int { return g.r.Intn(3) - 1 }
 
@@ -98,6 +100,15 @@ func (g *gen) oid() string {
 
 func (g *gen) generalName(kinds ...string) [2]string {
 	t := kinds[g.r.Intn(len(kinds))]
+	// values that are the zero value of their Go type (all-zero address, empty text) are names like any other
+	if g.chance(12) {
+		if t == "ip" {
+			return [2]string{t, g.pick("0.0.0.0", "0.0.0.1", "1.0.0.0", "255.255.255.255")}
+		}
+		if g.chance(40) {
+			return [2]string{t, ""}
+		}
+	}
 	switch t {
 	case "mail":
 		return [2]string{t, g.pick("a@b.example", "very.long.local.part+tag@sub.example.org", "x@y")}
@@ -406,7 +417,7 @@ func (g *gen) profileFor(name string, c *Cfg, keys []string) *Profile {
 		default:
 			pe.Ext = g.ext("ski", "ku", "bc", "eku", "aia", "san", "custom", "ocsp")
 		}
-		if g.chance(15) { // content-less profile entry (legal in a profile)
+		if g.chance(15) || (g.focus == "c08" && g.chance(30)) { // content-less profile entry (legal in a profile)
 			pe.Ext = Ext{Kind: g.pick("san", "ku", "bc", "eku"), Crit: -1}
 			if len(c.Exts) > 0 && g.chance(60) {
 				pe.Ext.Kind = c.Exts[g.r.Intn(len(c.Exts))].Kind
@@ -490,6 +501,9 @@ func (g *gen) hierarchy(i int) ([]entity, []*Profile) {
 	pchance := 35
 	if g.focus == "c03" || g.focus == "c06" || g.focus == "c04" {
 		pchance = 60
+	}
+	if g.focus == "c08" {
+		pchance = 100
 	}
 	if g.chance(pchance) {
 		p := g.profileFor("psub", &ents[1].cfg, sk)
